@@ -71,6 +71,33 @@ def eraseLeaves : List (LAction P) → List (Action P)
 def LState.waiting (s : LState P R) : List (Req P) :=
   s.base.pending.filter fun r => !s.gone.contains r.id
 
+/-- is the caller of this request still there? -/
+def LState.present (s : LState P R) (r : Req P) : Bool := !s.gone.contains r.id
+
+/-- the service order as the callers see it: the line (a request whose caller left keeps its
+    place until its batch is done), then the parked callers that are still there -/
+def LState.order (s : LState P R) : List Nat :=
+  s.base.line.map (·.id) ++ (s.base.putters.filter s.present).map (·.id)
+
+/-- fair admission with departures: the first parked caller that is STILL THERE enters first, and
+    a fresh arrival does not slip past one (asyncio skips cancelled putters when it wakes one) -/
+def fairLStep (cap : Nat) (s : LState P R) : LAction P → Bool
+  | .act (.arrive _) => (s.base.putters.filter s.present).isEmpty || decide (cap ≤ s.base.queue.length)
+  | .act (.enter k) => s.base.putters.findIdx? s.present == some k
+  | _ => true
+
+def lallSteps (ok : LState P R → LAction P → Bool) (cap : Nat) (f : P → R) :
+    LState P R → List (LAction P) → Bool
+  | _, [] => true
+  | s, a :: as =>
+    ok s a &&
+      match lstep cap f s a with
+      | some s' => lallSteps ok cap f s' as
+      | none => true
+
+def fairLRun (cap : Nat) (f : P → R) (s : LState P R) (as : List (LAction P)) : Bool :=
+  lallSteps (fairLStep cap) cap f s as
+
 /-! ### observed traces with departures -/
 
 inductive LEvent where
@@ -104,5 +131,18 @@ def lcheckTrace (cap : Nat) (f : List Nat → R) :
     match lcheckEvent cap f s e with
     | .ok s' => lcheckTrace cap f s' (i + 1) es
     | .error msg => .error (i, msg)
+
+/-- did every admission respect the order among the callers still there (diagnostic) -/
+def ltraceFair (cap : Nat) (f : List Nat → R) : LState (List Nat) R → List LEvent → Bool
+  | _, [] => true
+  | s, e :: es =>
+    (match e with
+      | .ev (.arrive _ _) =>
+        (s.base.putters.filter s.present).isEmpty || decide (cap ≤ s.base.queue.length)
+      | .ev (.enter id) => ((s.base.putters.filter s.present).head?.map (·.id)) == some id
+      | _ => true) &&
+    match lcheckEvent cap f s e with
+    | .ok s' => ltraceFair cap f s' es
+    | .error _ => true
 
 end Tak.Server
